@@ -14,7 +14,8 @@ import numpy as np
 
 RULE = ("translator: every traced function is validated on 60 random inputs per run (irrun vs real "
         "function, scipy stubs included); numeric support: rotation vectors log-uniform in |v| in "
-        "[1e-12, pi] plus a dense cluster around the branch threshold |v| = 1e-3 (compiled function and "
+        "[1e-12, pi] plus a dense cluster around the branch threshold |v| = 1e-3 plus |v| = pi - 10^-k (k=1..12), "
+        "exactly pi and just above pi in 7 directions (compiled function and "
         ".py_func), Euler triples with roll/heading in [-360, 360] incl. +-180/+-360 and |pitch| up to "
         "89.9, random small rotations phi for the Jacobian; a case is distinct by its rounded input")
 
@@ -69,9 +70,16 @@ def check_rotvec(v, py):
     from scipy.linalg import expm
     v = np.array(v, dtype=float)
     f = ni.mat_from_rotvec.py_func if py and hasattr(ni.mat_from_rotvec, 'py_func') else ni.mat_from_rotvec
-    m = np.empty((3, 3))
-    f(v, m)
+    m = np.full((3, 3), np.nan)
     n = float(np.linalg.norm(v))
+    try:
+        with np.errstate(all='ignore'):
+            f(v, m)
+    except Exception as e:          # the routine must be total on rotation vectors
+        return (f"mat_from_rotvec ({'py_func' if py else 'compiled'}) raised {type(e).__name__}: {e} "
+                f"at |v| = {n!r}")
+    if not np.isfinite(m).all():
+        return f"mat_from_rotvec ({'py_func' if py else 'compiled'}) returned non-finite entries at |v| = {n!r}"
     want = expmap_closed(v)
     # every entry to 500 eps absolutely (observed worst: 4 eps; just above the threshold the code's
     # (1 - cos n)/n^2 loses ~10 digits of k2, an absolute effect of <= 1e-16 on the entries) ...
@@ -203,7 +211,15 @@ def _rotvecs(rng, n):
         for mag in (1e-3, math.pi, math.pi / 2, 1e-12):
             out.append(a * mag)
     out.append(np.zeros(3))
-    k = n // 3
+    # the upper end of the quantifier: |v| = pi - 10^-k (k = 1..12), exactly pi, and just above pi
+    # (1 + cos|v| -> 0 there), axis-aligned and oblique directions
+    dirs = axes[:3] + [-axes[0], np.array([1.0, 1.0, 0.0]) / math.sqrt(2), _unit(rng), _unit(rng)]
+    mags = [math.pi - 10.0 ** -k for k in range(1, 13)]
+    mags += [math.pi, math.nextafter(math.pi, 0.0), math.nextafter(math.pi, 4.0)]
+    mags += [math.pi + 10.0 ** -k for k in (1, 2, 4, 6, 8, 10, 12)]
+    for a in dirs:
+        for mag in mags:
+            out.append(a * mag)
     for _ in range(k):                               # dense around |v| = 1e-3 (|v|^2 = 1e-6)
         u = _unit(rng)
         mag = 1e-3 * (1 + rng.choice([1e-15, 1e-12, 1e-9, 1e-6, 1e-3, 1e-1]) * rng.uniform(-1, 1))
@@ -232,7 +248,7 @@ def numeric_statements(r, n):
     """Check the property's own statements on the implementation.  Returns [(what, replay)]."""
     rng = random.Random(r.seed + 17)
     fails = []
-    dist = dict(rotvec_small=0, rotvec_threshold=0, rotvec_large=0, rph=0, rph_pitch_gt_85=0, jacobian=0,
+    dist = dict(rotvec_small=0, rotvec_threshold=0, rotvec_large=0, rotvec_near_pi=0, rph=0, rph_pitch_gt_85=0, jacobian=0,
                 stacked=0)
 
     def run(kind, obj, key):
@@ -244,7 +260,8 @@ def numeric_statements(r, n):
     for v in _rotvecs(rng, n):
         nv = float(np.linalg.norm(v))
         dist['rotvec_threshold' if abs(nv - 1e-3) < 2e-4 else
-             'rotvec_small' if nv < 1e-3 else 'rotvec_large'] += 1
+             'rotvec_small' if nv < 1e-3 else
+             'rotvec_near_pi' if abs(nv - math.pi) <= 0.11 else 'rotvec_large'] += 1
         for py in (False, True):
             run('rotvec', dict(v=[float(t) for t in v], py=py), (tuple(float(t).hex() for t in v), py))
     rphs = _rphs(rng, n)
@@ -262,37 +279,6 @@ def numeric_statements(r, n):
         run('jacobian', dict(rph=list(rph), phi=phi), tuple(round(t, 9) for t in rph))
     r.coverage.setdefault('distribution', {}).update(dist)
     return fails
-
-
-OWN_MODULES = ['Props.C17', 'Proofs.C17Proofs', 'Spec.LibSpecsFacts', 'Spec.LibSpecs', 'Gen.C17Gen',
-               'Gen.Transform', 'Gen.NumbaIntegrate', 'Base.RealTac']
-
-
-def coqchk_own(r):
-    """Re-check the compiled modules of this property with the independent checker.  `-norec`: the
-    libraries below them (Reals, Coquelicot, Interval) are loaded but not re-checked -- the recursive
-    run (r.coqchk) needs > 40 min for Interval alone.  The axioms are those of Print Assumptions."""
-    import re
-    import common
-    cmd = ['timeout', '900', 'coqchk', '-silent', '-o', '-Q', '.', 'PV']
-    for m in OWN_MODULES:
-        cmd += ['-norec', 'PV.' + m]
-    r.checker_cmds.append(f"cd {common.COQ} && " + ' '.join(cmd[2:]))
-    rc, out = common.sh(cmd, 930, cwd=common.COQ)
-    if rc != 0:
-        r.broken('coqchk', 'PV.Props.C17 (-norec)', out[-2000:])
-        return False
-    bad = []
-    for kind in ('type-in-type', 'unsafe (co)fixpoints', 'positivity is assumed'):
-        mm = re.search(re.escape(kind) + r':\s*(\S+)', out)
-        if not mm or mm.group(1) != '<none>':
-            bad.append(kind)
-    r.coverage['coqchk'] = dict(modules=OWN_MODULES, mode='-norec', ok=not bad)
-    if bad:
-        r.broken('coqchk', 'PV.Props.C17 (-norec)', f"unexpected: {bad}")
-        return False
-    r.log(f"coqchk: {len(OWN_MODULES)} modules re-checked (-norec)")
-    return True
 
 
 def check(r):
@@ -321,8 +307,8 @@ def check(r):
     for what, rep in fails[:5]:
         r.violation(what, rep)
     if r.tier == 'thorough':
-        r.hygiene()
-        coqchk_own(r)
+        r.hygiene('Props/C17.v')
+        r.coqchk('Props/C17.v')
 
 
 def falsify(r):
@@ -346,8 +332,12 @@ def replay(obj):
         from pyins import _numba_integrate as ni
         m = np.empty((3, 3))
         f = ni.mat_from_rotvec.py_func if rep['py'] else ni.mat_from_rotvec
-        f(np.array(rep['v'], dtype=float), m)
-        print("implementation:\n", m, "\nexponential map (closed form):\n", expmap_closed(rep['v']))
+        try:
+            f(np.array(rep['v'], dtype=float), m)
+            print("implementation:\n", m)
+        except Exception as e:
+            print(f"implementation raised {type(e).__name__}: {e}")
+        print("exponential map (closed form):\n", expmap_closed(rep['v']))
     elif kind == 'rph':
         from pyins import transform
         m = transform.mat_from_rph(rep['rph'])
